@@ -24,6 +24,10 @@ def build_jobs(tier, seed):
                                      nmax=36000), split_depth=8))
     jobs.append(J(H['cli'], dict(P, magic='none', overlays='single',
                                  small_n=True, missing=True, verbose=True)))
+    for mg in ('vhd', 'luks', 'qcow2'):
+        # truncated images that keep their signature
+        jobs.append(J(H['cli'], dict(P, magic=mg, overlays='single',
+                                     small_n=True)))
     jobs += img.vmdk_jobs(J, H, PROPS, tier,
                           {'hdr', 'desc1', 'desc2', 'footer'}, k=k)
     return jobs
